@@ -196,6 +196,35 @@ func Render(files map[string]string, src string, ctx pongo2.Context) Out {
 	return RenderIn(set, src, ctx)
 }
 
+// RenderBytesScribbled compiles src through FromBytes from a caller-owned buffer, overwrites the buffer after the
+// compilation (the caller owns it and may reuse it) and executes the template afterwards.
+func RenderBytesScribbled(set *pongo2.TemplateSet, src string, ctx pongo2.Context) (out Out) {
+	buf := []byte(src)
+	var tpl *pongo2.Template
+	var err error
+	func() {
+		defer func() {
+			if p := recover(); p != nil {
+				out.Panic = fmt.Sprint(p)
+				out.PanicMsg = fmt.Sprint(p)
+			}
+		}()
+		tpl, err = set.FromBytes(buf)
+	}()
+	if out.Panic != "" {
+		return out
+	}
+	if err != nil {
+		out.Err = err.Error()
+		out.Compile = true
+		return out
+	}
+	for i := range buf {
+		buf[i] = '#'
+	}
+	return Exec(tpl, ctx)
+}
+
 func RenderIn(set *pongo2.TemplateSet, src string, ctx pongo2.Context) Out {
 	tpl, out := Compile(set, src)
 	if tpl == nil {
